@@ -75,3 +75,13 @@ func init() {
 	props["C01"] = &propInfo{engine: "B", level: "exploration", minOutcomes: 2, mustOutcomes: []string{"matched", "fired"},
 		assume: []string{"'an equal value' = Go equality for scalars, deep equality for lists and maps; event states hold ECAL values (numbers are float64)", "left open: a rule suppressing itself, regular expressions against a NULL state value, wildcard or empty segments inside an event kind"}}
 }
+
+func init() {
+	props["C03"] = &propInfo{engine: "B", level: "exploration", minOutcomes: 2, mustOutcomes: []string{"value", "error"},
+		assume: []string{"reference semantics as listed in DESIGN.md 9a: only what ecal.md and the property statement define is compared; zero divisors, % outside non-negative integers, ordering across kinds, equality/membership of containers, like/hasPrefix/hasSuffix on non-strings, membership in non-lists are Unspecified (counted, not compared)", "when both operands are of the wrong kind the left one is the one reported (left-to-right evaluation)"}}
+}
+
+func init() {
+	props["C04"] = &propInfo{engine: "B", level: "exploration", minOutcomes: 1, mustOutcomes: []string{"agrees"},
+		assume: []string{"left open (Unspecified, not compared): otherwise when the try block is left by return/break/continue, exits from inside finally, range without step and start > end, range with a step whose sign contradicts start/end, break/continue/return leaving the program", "observation is the ordered trace of a harness mark() function plus the type/detail/data of the final error"}}
+}
